@@ -76,28 +76,99 @@ func cellOf(k colKind, varName string, s string, i int64, b bool) Cell {
 			c.Expr = "bool(" + c.Expr + ")"
 		}
 	default:
-		c.Int = strconv.FormatInt(i, 10)
-		switch k.id {
-		case "uint_":
-			c.Expr = c.Int
-		case "urune":
-			c.Expr = "'" + string(rune(i)) + "'"
-		case "trune":
-			c.Expr = "rune('" + string(rune(i)) + "')"
-		case "dur":
-			if i%2 == 0 {
-				c.Expr = fmt.Sprintf("%d * tm.Second", i)
-				c.Int = strconv.FormatInt(i*1000000000, 10)
-			} else {
-				c.Expr = fmt.Sprintf("tm.Duration(%d)", i)
-			}
-		case "AuxA", "AuxB":
-			c.Expr = fmt.Sprintf("%s%d", k.id, i)
-		default:
-			c.Expr = fmt.Sprintf("%s(%d)", k.ref, i)
-		}
+		return cellInt(k, varName, big.NewInt(i))
 	}
 	return c
+}
+
+// cellInt renders an integer cell of kind k holding v (any magnitude the kind's type admits).
+func cellInt(k colKind, varName string, v *big.Int) Cell {
+	c := Cell{Var: varName, Ty: k.ty, Kind: k.pk}
+	c.Int = v.String()
+	switch k.id {
+	case "uint_":
+		c.Expr = c.Int
+	case "urune":
+		c.Expr = "'" + string(rune(v.Int64())) + "'"
+	case "trune":
+		c.Expr = "rune('" + string(rune(v.Int64())) + "')"
+	case "dur":
+		i := v.Int64()
+		if i%2 == 0 {
+			c.Expr = fmt.Sprintf("%d * tm.Second", i)
+			c.Int = strconv.FormatInt(i*1000000000, 10)
+		} else {
+			c.Expr = fmt.Sprintf("tm.Duration(%d)", i)
+		}
+	case "AuxA", "AuxB":
+		c.Expr = fmt.Sprintf("%s%s", k.id, v.String())
+	default:
+		c.Expr = fmt.Sprintf("%s(%s)", k.ref, v.String())
+	}
+	return c
+}
+
+// typeBounds gives the extremes of the integer type behind a column kind (ok = false for the
+// kinds whose cells are not free-form integer literals: runes, Duration, other enums).
+func typeBounds(k colKind) (lo, hi *big.Int, ok bool) {
+	switch k.id {
+	case "urune", "trune", "dur", "AuxA", "AuxB":
+		return nil, nil, false
+	}
+	if k.pk != "int" {
+		return nil, nil, false
+	}
+	bits, signed := 64, true
+	switch k.bkind {
+	case "BUntypedInt", "BInt", "BInt64":
+	case "BUint", "BUint64":
+		signed = false
+	case "BInt8":
+		bits = 8
+	case "BInt16":
+		bits = 16
+	case "BInt32":
+		bits = 32
+	case "BUint8":
+		bits, signed = 8, false
+	case "BUint16":
+		bits, signed = 16, false
+	case "BUint32":
+		bits, signed = 32, false
+	default:
+		return nil, nil, false
+	}
+	u := under{"", signed, bits}
+	return tyMin(u), tyMax(u), true
+}
+
+// boundaryValues are the values of an integer trait type where the decoders' 64-bit readings and
+// the wrap-around checks change behaviour: the type's extremes and their neighbours, the
+// int64/uint64 seam 2^63, and -1 / 0.
+func boundaryValues(k colKind) []*big.Int {
+	lo, hi, ok := typeBounds(k)
+	if !ok {
+		return nil
+	}
+	var out []*big.Int
+	add := func(v *big.Int) {
+		if v.Cmp(lo) >= 0 && v.Cmp(hi) <= 0 {
+			out = append(out, v)
+		}
+	}
+	add(lo)
+	add(hi)
+	add(new(big.Int).Add(lo, bigOf(1)))
+	add(new(big.Int).Sub(hi, bigOf(1)))
+	seam := new(big.Int).Lsh(bigOf(1), 63)
+	add(seam)
+	add(new(big.Int).Sub(seam, bigOf(1)))
+	add(new(big.Int).Add(seam, bigOf(1)))
+	add(bigOf(-1))
+	add(bigOf(0))
+	half := new(big.Int).Rsh(new(big.Int).Add(new(big.Int).Sub(hi, lo), bigOf(1)), 1)
+	add(half) // 2^(bits-1): the sign seam of the narrow types
+	return out
 }
 
 func typeInfoOf(k colKind) TypeInfo {
@@ -106,6 +177,12 @@ func typeInfoOf(k colKind) TypeInfo {
 
 // escapeProne are prefixes of trait strings whose JSON (and partly YAML) rendering needs escapes.
 var escapeProne = []string{"q\"", "b\\", "t\t", "<x>", "a&", "\u00e9", "\u2028", "\"\\<&>\t\u00fc", "'", "#", ": "}
+
+// yamlSignificant are string trait values whose plain YAML scalar has a non-string tag (or is
+// otherwise special): the decoders must still read them as the strings they are.
+var yamlSignificant = []string{"404", "1.1", "0x1F", "1e3", ".5", "-7", "+3", "007", "0o17", "1_000", "0b101",
+	"true", "false", "True", "FALSE", "null", "Null", "~", "yes", "No", "on", "OFF", "y", "N", ".inf", "-.Inf", ".nan",
+	"2001-01-01", "12:30:45", "1 ", " 1", "", "<<", "=", "9223372036854775808", "-9223372036854775809", "1e400"}
 
 var methodNames = []string{"string", "isvalid", "values", "stringvalues", "parsestring", "parsegeneric", "isenum",
 	"marshaljson", "unmarshaljson", "marshaltext", "unmarshaltext", "marshalyaml", "unmarshalyaml", "str", "num",
@@ -158,6 +235,9 @@ func genTraitEnum(r *rand.Rand, nm *namer, typeName string, nextBlock *int, sp t
 			}
 		}
 		name := nm.fresh(7)
+		for !cellIdentOK(name) {
+			name = nm.fresh(7)
+		}
 		colNames[j] = name
 		if r.IntN(3) > 0 {
 			colVars[j] = "_" + name
@@ -181,9 +261,13 @@ func genTraitEnum(r *rand.Rand, nm *namer, typeName string, nextBlock *int, sp t
 	drawStr := func() string {
 		for {
 			var s string
-			switch r.IntN(6) {
+			switch r.IntN(7) {
 			case 0:
 				s = strconv.Itoa(r.IntN(40)) // numeric-looking string
+			case 6:
+				// spellings that YAML resolves to something other than a string when written plain
+				// (numbers in several notations, booleans, null, timestamps) and the empty string
+				s = yamlSignificant[r.IntN(len(yamlSignificant))]
 			case 1:
 				s = "tv-" + randWord(r)
 			case 2:
@@ -200,13 +284,13 @@ func genTraitEnum(r *rand.Rand, nm *namer, typeName string, nextBlock *int, sp t
 		}
 	}
 	type colState struct {
-		ints     map[int64]bool
+		ints     map[string]bool
 		distinct bool
 		nbool    int
 	}
 	st := make([]colState, ncols)
 	for j := range st {
-		st[j] = colState{ints: map[int64]bool{}, distinct: true}
+		st[j] = colState{ints: map[string]bool{}, distinct: true}
 	}
 	drawCell := func(j int, varName string, forceDup bool) Cell {
 		k := cols[j]
@@ -219,9 +303,9 @@ func genTraitEnum(r *rand.Rand, nm *namer, typeName string, nextBlock *int, sp t
 				b = !b
 			}
 			st[j].nbool++
-			bi := int64(0)
+			bi := "0"
 			if b {
-				bi = 1
+				bi = "1"
 			}
 			if st[j].ints[bi] {
 				st[j].distinct = false
@@ -229,28 +313,41 @@ func genTraitEnum(r *rand.Rand, nm *namer, typeName string, nextBlock *int, sp t
 			st[j].ints[bi] = true
 			return cellOf(k, varName, "", 0, b)
 		}
+		bounds := boundaryValues(k)
 		for tries := 0; ; tries++ {
 			span := k.hi - k.lo + 1
 			var v int64
-			switch r.IntN(5) {
+			var bv *big.Int
+			switch r.IntN(6) {
 			case 0:
 				v = int64(r.IntN(4)) // small values, 0 included (the YAML `garbage` witness needs a 0)
 			case 1:
 				v = k.lo + int64(r.Uint64()%uint64(span))
+			case 2:
+				// boundary values of the trait's type (extremes, the int64/uint64 seam, -1)
+				if len(bounds) > 0 {
+					bv = bounds[r.IntN(len(bounds))]
+				} else {
+					v = int64(r.IntN(int(min(span, 300))))
+				}
 			default:
 				v = int64(r.IntN(int(min(span, 300))))
 			}
-			if v < k.lo || v > k.hi {
+			if bv == nil {
+				if v < k.lo || v > k.hi {
+					continue
+				}
+				bv = big.NewInt(v)
+			}
+			key := bv.String()
+			if st[j].ints[key] && tries < 50 && !(forceDup || r.IntN(12) == 0) {
 				continue
 			}
-			if st[j].ints[v] && tries < 50 && !(forceDup || r.IntN(12) == 0) {
-				continue
-			}
-			if st[j].ints[v] {
+			if st[j].ints[key] {
 				st[j].distinct = false
 			}
-			st[j].ints[v] = true
-			return cellOf(k, varName, "", v, false)
+			st[j].ints[key] = true
+			return cellInt(k, varName, bv)
 		}
 	}
 	blk := *nextBlock
@@ -276,6 +373,9 @@ func genTraitEnum(r *rand.Rand, nm *namer, typeName string, nextBlock *int, sp t
 				varName = colVars[j]
 			} else if r.IntN(100) < sp.namedCells {
 				varName = nm.fresh(9)
+				for !cellIdentOK(varName) {
+					varName = nm.fresh(9)
+				}
 				shape["named_cells"] = true
 			}
 			c.Cells = append(c.Cells, drawCell(j, varName, false))
@@ -622,6 +722,119 @@ func corpusC12() []FileDef {
 		traitEnum("E0", uByName("int"), 0, []TypeInfo{typeInfoOf(ki)},
 			Const{Name: "Ua", Val: "0", Cells: []Cell{cellOf(ki, "_Wa", "", 10, false), cellOf(ki, "_Wb", "", 10, false)}},
 			Const{Name: "Ub", Val: "1", Cells: []Cell{cellOf(ki, "_", "", 11, false), cellOf(ki, "_", "", 12, false)}}),
+	}})
+	return out
+}
+
+func bigStr(s string) *big.Int {
+	v, ok := new(big.Int).SetString(s, 10)
+	if !ok {
+		panic(s)
+	}
+	return v
+}
+
+// corpusClasses: one fixed definition file per CLASS of input that some seeded change needed, run in
+// every quick check of C05 and C12 independently of the random stream.
+func corpusClasses() []FileDef {
+	ks, kS := kindByID("ustr"), kindByID("Str")
+	ku64, ki64, kuint, kint, kun := kindByID("uint64"), kindByID("int64"), kindByID("uint"), kindByID("tint"), kindByID("uint_")
+	ku8, ki8, ku16, ki32 := kindByID("uint8"), kindByID("int8"), kindByID("uint16"), kindByID("int32")
+	kb, ktb := kindByID("ubool"), kindByID("tbool")
+	str := func(k colKind, v, s string) Cell { return cellOf(k, v, s, 0, false) }
+	num := func(k colKind, v, dec string) Cell { return cellInt(k, v, bigStr(dec)) }
+	var out []FileDef
+	// A. -caseInsensitive together with parsable string traits (untyped and named type) whose values
+	//    contain upper-case letters: Parse must match trait constants exactly, names in any case
+	oa := defaultOpts()
+	oa.CI = true
+	oa.Parsable = []string{"Code", "Zone"}
+	out = append(out, FileDef{Kind: "corpus", Opts: oa, Traits: true, Enums: []EnumDef{
+		traitEnum("E0", uByName("int"), 0, []TypeInfo{typeInfoOf(ks), typeInfoOf(kS)},
+			Const{Name: "EuWest", Val: "0", Cells: []Cell{str(ks, "_Code", "EU-W1"), str(kS, "_Zone", "Zone-A")}},
+			Const{Name: "ApSouth", Val: "1", Cells: []Cell{str(ks, "_", "Ap-S1"), str(kS, "_", "zone-b")}},
+			Const{Name: "Unknown", Val: "2", Cells: []Cell{str(ks, "_", "XX"), str(kS, "_", "ZONE-C")}}),
+	}})
+	// B. integer traits at the extremes of their types and at the int64/uint64 seam (64-bit kinds)
+	ob := defaultOpts()
+	ob.Parsable = []string{"Mask", "Off", "Cnt", "Idx", "Lit"}
+	out = append(out, FileDef{Kind: "corpus", Opts: ob, Traits: true, Enums: []EnumDef{
+		traitEnum("E0", uByName("uint8"), 0,
+			[]TypeInfo{typeInfoOf(ku64), typeInfoOf(ki64), typeInfoOf(kuint), typeInfoOf(kint)},
+			// (values pairwise distinct across the rows: a number held by cells of two different values is ambiguous
+			// and carries no decoding obligation)
+			Const{Name: "All", Val: "0", Cells: []Cell{num(ku64, "_Mask", "18446744073709551615"), num(ki64, "_Off", "-9223372036854775808"),
+				num(kuint, "_Cnt", "18446744073709551614"), num(kint, "_Idx", "-9223372036854775807")}},
+			Const{Name: "Top", Val: "1", Cells: []Cell{num(ku64, "_", "9223372036854775808"), num(ki64, "_", "-1"),
+				num(kuint, "_", "9223372036854775809"), num(kint, "_", "-2")}},
+			Const{Name: "Low", Val: "2", Cells: []Cell{num(ku64, "_", "9223372036854775807"), num(ki64, "_", "9223372036854775807"),
+				num(kuint, "_", "0"), num(kint, "_", "9223372036854775806")}}),
+	}})
+	// B'. … the narrow kinds and an untyped integer column
+	ob2 := defaultOpts()
+	ob2.Parsable = []string{"Ba", "Bb", "Bc", "Bd", "Be"}
+	out = append(out, FileDef{Kind: "corpus", Opts: ob2, Traits: true, Enums: []EnumDef{
+		traitEnum("E0", uByName("int16"), 0,
+			[]TypeInfo{typeInfoOf(ku8), typeInfoOf(ki8), typeInfoOf(ku16), typeInfoOf(ki32), typeInfoOf(kun)},
+			Const{Name: "Na", Val: "-1", Cells: []Cell{num(ku8, "_Ba", "255"), num(ki8, "_Bb", "-128"), num(ku16, "_Bc", "65535"),
+				num(ki32, "_Bd", "-2147483648"), num(kun, "_Be", "-9223372036854775808")}},
+			Const{Name: "Nb", Val: "0", Cells: []Cell{num(ku8, "_", "128"), num(ki8, "_", "127"), num(ku16, "_", "32768"),
+				num(ki32, "_", "2147483647"), num(kun, "_", "9223372036854775807")}},
+			Const{Name: "Nc", Val: "1", Cells: []Cell{num(ku8, "_", "0"), num(ki8, "_", "-1"), num(ku16, "_", "0"),
+				num(ki32, "_", "-1"), num(kun, "_", "-1")}}),
+	}})
+	// C. string traits whose plain YAML scalar resolves to a number / bool / null / timestamp; enum names
+	//    that look like YAML keywords
+	oc := defaultOpts()
+	oc.Parsable = []string{"Status", "Proto", "Word"}
+	out = append(out, FileDef{Kind: "corpus", Opts: oc, Traits: true, Enums: []EnumDef{
+		traitEnum("E0", uByName("int"), 0, []TypeInfo{typeInfoOf(ks), typeInfoOf(kS)},
+			Const{Name: "Inf", Val: "0", Cells: []Cell{str(ks, "_Status", "404"), str(kS, "_Proto", "1.1"), str(kS, "_Word", "true")}},
+			Const{Name: "NaN", Val: "1", Cells: []Cell{str(ks, "_", "0x1F"), str(kS, "_", "1e3"), str(kS, "_", "~")}},
+			Const{Name: "On", Val: "2", Cells: []Cell{str(ks, "_", ".5"), str(kS, "_", "-7"), str(kS, "_", "2001-01-01")}},
+			Const{Name: "E1", Val: "3", Cells: []Cell{str(ks, "_", "007"), str(kS, "_", "1_000"), str(kS, "_", "")}}),
+	}})
+	od := defaultOpts()
+	od.CI = true
+	out = append(out, FileDef{Kind: "corpus", Opts: od, Enums: []EnumDef{
+		explicitEnum("E0", uByName("uint8"), 0, Const{Name: "True", Val: "1"}, Const{Name: "False", Val: "0"},
+			Const{Name: "Null", Val: "2"}, Const{Name: "Yes", Val: "3"}, Const{Name: "Y", Val: "4"}, Const{Name: "Off", Val: "5"},
+			Const{Name: "_1e3", Val: "6"}, Const{Name: "NaN", Val: "7"}),
+	}})
+	// E. every remaining integer-like kind as a parsable trait: untyped and typed runes (32 bits), a
+	//    locally named int type, time.Duration through the renamed import, another generated enum —
+	//    the rejection stream holds their wrap-around neighbours
+	kur, ktr, kNum, kdur, kAux := kindByID("urune"), kindByID("trune"), kindByID("Num"), kindByID("dur"), kindByID("AuxA")
+	of := defaultOpts()
+	of.Parsable = []string{"Ltr", "Cap", "Qty"}
+	out = append(out, FileDef{Kind: "corpus", Opts: of, Traits: true, Enums: []EnumDef{
+		traitEnum("E0", uByName("int32"), 0, []TypeInfo{typeInfoOf(kur), typeInfoOf(kNum)},
+			Const{Name: "Ra", Val: "-2", Cells: []Cell{num(kur, "_Ltr", "97"), num(ktr, "_Cap", "65"), num(kNum, "_Qty", "-100")}},
+			Const{Name: "Rb", Val: "0", Cells: []Cell{num(kur, "_", "122"), num(ktr, "_", "90"), num(kNum, "_", "0")}},
+			Const{Name: "Rc", Val: "5", Cells: []Cell{num(kur, "_", "109"), num(ktr, "_", "81"), num(kNum, "_", "100000")}}),
+	}})
+	og := defaultOpts()
+	og.Parsable = []string{"Wait", "Peer"}
+	out = append(out, FileDef{Kind: "corpus", Opts: og, Traits: true, Enums: []EnumDef{
+		traitEnum("E0", uByName("uint"), 0, []TypeInfo{typeInfoOf(kdur), typeInfoOf(kAux)},
+			Const{Name: "Da", Val: "0", Cells: []Cell{num(kdur, "_Wait", "0"), num(kAux, "_Peer", "3")}},
+			Const{Name: "Db", Val: "1", Cells: []Cell{num(kdur, "_", "2"), num(kAux, "_", "0")}},
+			Const{Name: "Dc", Val: "2", Cells: []Cell{num(kdur, "_", "7201"), num(kAux, "_", "47")}}),
+	}})
+	// D. parsable bool traits (untyped and typed): at most one value per boolean
+	oe := defaultOpts()
+	oe.Parsable = []string{"Up"}
+	out = append(out, FileDef{Kind: "corpus", Opts: oe, Traits: true, Enums: []EnumDef{
+		traitEnum("E0", uByName("int"), 0, []TypeInfo{typeInfoOf(kb)},
+			Const{Name: "Stopped", Val: "0", Cells: []Cell{cellOf(kb, "_Up", "", 0, false)}},
+			Const{Name: "Running", Val: "1", Cells: []Cell{cellOf(kb, "_", "", 0, true)}}),
+	}})
+	oe2 := defaultOpts()
+	oe2.Parsable = []string{"Live", "Tag"}
+	out = append(out, FileDef{Kind: "corpus", Opts: oe2, Traits: true, Enums: []EnumDef{
+		traitEnum("E0", uByName("uint16"), 0, []TypeInfo{typeInfoOf(ktb), typeInfoOf(ks)},
+			Const{Name: "Dead", Val: "7", Cells: []Cell{cellOf(ktb, "_Live", "", 0, false), str(ks, "_Tag", "yes")}},
+			Const{Name: "Alive", Val: "9", Cells: []Cell{cellOf(ktb, "_", "", 0, true), str(ks, "_", "no")}}),
 	}})
 	return out
 }
